@@ -555,3 +555,132 @@ m("C03", "refactor-end-format", C,
   "yield EmitText(node.prefix + node.name + node.suffix)\n\n    def visit_Attribute",
   "text = node.prefix + node.name\n        yield EmitText(text + node.suffix)\n\n    def visit_Attribute",
   expect="silent")
+
+# ---- C04 -------------------------------------------------------------------
+TA = "tales.py"
+m("C04", "pipe-catches-exception", TA,
+  '''    exceptions = AttributeError, \\
+        NameError, \\
+        LookupError, \\
+        TypeError, \\
+        ValueError
+
+    ignore_prefix = True''',
+  '''    exceptions = AttributeError, \\
+        NameError, \\
+        LookupError, \\
+        TypeError, \\
+        ValueError, \\
+        ArithmeticError
+
+    ignore_prefix = True''')
+m("C04", "pipe-misses-valueerror", TA,
+  '''        LookupError, \\
+        TypeError, \\
+        ValueError
+
+    ignore_prefix = True''',
+  '''        LookupError, \\
+        TypeError
+
+    ignore_prefix = True''')
+m("C04", "pipe-left-nested", TA,
+  '''                body = [ast.Try(
+                    body=assignment,
+                    handlers=[ast.ExceptHandler(
+                        type=ast.Tuple(
+                            elts=list(map(resolve_global, self.exceptions)),
+                            ctx=ast.Load()),
+                        name=None,
+                        body=body,
+                    )],''',
+  '''                body = [ast.Try(
+                    body=body,
+                    handlers=[ast.ExceptHandler(
+                        type=ast.Tuple(
+                            elts=list(map(resolve_global, self.exceptions)),
+                            ctx=ast.Load()),
+                        name=None,
+                        body=assignment,
+                    )],''')
+m("C04", "pipe-bare-except", TA,
+  '''                    handlers=[ast.ExceptHandler(
+                        type=ast.Tuple(
+                            elts=list(map(resolve_global, self.exceptions)),
+                            ctx=ast.Load()),
+                        name=None,
+                        body=body,
+                    )],''',
+  '''                    handlers=[ast.ExceptHandler(
+                        type=None,
+                        name=None,
+                        body=body,
+                    )],''')
+m("C04", "item-before-attribute", "utils.py",
+  '''    try:
+        return getattr(obj, key)
+    except AttributeError as exc:''',
+  '''    try:
+        return obj[key]
+    except (TypeError, KeyError, IndexError):
+        pass
+    try:
+        return getattr(obj, key)
+    except AttributeError as exc:''')
+m("C04", "lookup-raises-keyerror", "utils.py",
+  '''        try:
+            return get(key)
+        except KeyError:
+            raise exc''',
+  '''        return get(key)''')
+m("C04", "omit-evaluated-twice", ZP,
+  '''                if omit is not False:
+                    inner = nodes.Cache([omit], inner)
+''', '')
+m("C04", "case-value-uncached", ZP,
+  '''                        nodes.Cache(
+                            [value],
+                            nodes.Condition(''',
+  '''                        nodes.Cache(
+                            [],
+                            nodes.Condition(''')
+m("C04", "content-value-uncached", ZP,
+  '''            # Cache expression to avoid duplicate evaluation
+            content = nodes.Cache([value], content)
+''', '')
+m("C04", "transformer-ignores-cache", C,
+  '''        cached = self.cache.get(expression)
+
+        if cached is not None:''',
+  '''        cached = None
+
+        if cached is not None:''')
+m("C04", "default-type-string", "zpt/template.py",
+  "    default_expression: str = 'python'",
+  "    default_expression: str = 'string'")
+m("C04", "not-prefix-maps-exists", "zpt/template.py",
+  "        'not': NotExpr,", "        'not': ExistsExpr,")
+m("C04", "lambda-empty-scope", "astutil.py",
+  "        self.scopes.append(set(self.scopes[-1]))",
+  "        self.scopes.append(set())")
+m("C04", "listcomp-handler-removed", "astutil.py",
+  "    visit_ListComp = _visit_comprehension\n", "")
+m("C04", "not-evaluates-twice", TA,
+  '''        compiler = engine.parse(self.expression)
+        body = compiler.assign_value(target)
+        return body + template("target = not target", target=target)''',
+  '''        compiler = engine.parse(self.expression)
+        body = compiler.assign_value(target)
+        return body + body + template("target = not target", target=target)''')
+m("C04", "refactor-exceptions-tuple", TA,
+  '''    exceptions = AttributeError, \\
+        NameError, \\
+        LookupError, \\
+        TypeError, \\
+        ValueError
+
+    ignore_prefix = True''',
+  '''    exceptions = (NameError, AttributeError, LookupError,
+                  ValueError, TypeError)
+
+    ignore_prefix = True''', expect="silent")
